@@ -28,7 +28,8 @@ ASSUMPTIONS = ["non-negative quadrant (library-wide precondition; -1 is the 'hal
                "the exact quantity is not on the decision boundary (counted as 'ambiguous')",
                "distance tolerance set as a die of that size would set it (1e-11*scale)"]
 BOUNDS = {'quick': '5x5-point grid, 8 families, all ordered pairs (10 000 per family), cuts/grids/points per rectangle',
-          'thorough': 'same plus 6x6-point grid (225 rectangles, 50 625 ordered pairs) for 4 families'}
+          'thorough': 'same plus 6x6-point grid (225 rectangles, 50 625 ordered pairs) for all 8 families and 7x7-point grid '
+                      '(441 rectangles, 194 481 ordered pairs) for 4 families'}
 
 N = 4  # cells per axis -> 5 points
 
@@ -51,9 +52,14 @@ def shards(tier):
         out.append(dict(kind='pairs', fam=fam, n=N))
         out.append(dict(kind='single', fam=fam, n=N))
     if tier == 'thorough':
-        for fam in ('HALF', 'DEC1', 'DEC3', 'NONUNI'):
-            out.append(dict(kind='pairs', fam=fam, n=5))
+        for fam in FAMS:
+            for part in range(4):
+                out.append(dict(kind='pairs', fam=fam, n=5, part=part, parts=4))
             out.append(dict(kind='single', fam=fam, n=5))
+        for fam in ('HALF', 'DEC1', 'DEC7', 'NONUNI'):
+            for part in range(12):
+                out.append(dict(kind='pairs', fam=fam, n=6, part=part, parts=12))
+            out.append(dict(kind='single', fam=fam, n=6))
     return out
 
 
@@ -369,7 +375,10 @@ def run_shard(shard, tier, res):
     fam, n = shard['fam'], shard['n']
     rects = grid_rects(n)
     if shard['kind'] == 'pairs':
-        for a, b in itertools.product(rects, rects):
+        part, parts = shard.get('part', 0), shard.get('parts', 1)
+        for k, (a, b) in enumerate(itertools.product(rects, rects)):
+            if k % parts != part:
+                continue
             reset_frame_state()
             case = dict(kind='pair', fam=fam, a=list(a), b=list(b), n=n)
             check_case(case, res)
